@@ -5,7 +5,7 @@ import pres_common as PC
 
 TRUSTED_COMMON = [
     "Coq 8.16.1 kernel; Print Assumptions of every theorem of this property: closed under the global context (theorems quantify over every K with feqb_ok K / is_field K)",
-    "hand-written model coq/Model/Pres.v of src/presentation/verify.rs, src/verifier/{signature,equality,commitment}.rs, src/knox/{bbs,ps}/pok_signature_proof.rs in the exponent model (truncating msm, index->slot walk, dispatch, disclosed-claim comparison)",
+    "hand-written model coq/Model/Pres.v of src/presentation/verify.rs, src/verifier/{signature,equality,commitment,revocation}.rs (the accumulator proof's recomputed commitments enter the model as one opaque transcript item computed by the harness with MembershipProof::finalize; its algebra is Model/AccProof.v, C06), src/knox/{bbs,ps}/pok_signature_proof.rs in the exponent model (truncating msm, index->slot walk, dispatch, disclosed-claim comparison)",
     "Fiat-Shamir read symbolically: the challenge comparison succeeds iff the presented challenge was derived by hashing a transcript with the same proof-dependent items (random-oracle / collision-resistance reading of merlin)",
     "pseudo-logs: hash-derived bases (BBS generators, PS sigma_1) get independent random logs; model and code then agree on verdicts except with probability ~2^-250 per case",
     "correspondence: harness/src/ops_adv.rs (external honest and deviating prover; the verifier's challenge is read from its own mismatch error on a zero-challenge dummy), lib/pres_common.py",
@@ -81,6 +81,17 @@ def scenarios_for(pid, devs, rng, tier, shapes):
                         ok = False
                     if not any(st["id"] == tgt for st in s["stmts"]):
                         ok = False
+                    if dev["k"].startswith("rev_other_element"):
+                        # needs a second credential in the same registry, with another identifier
+                        rs = [x for x in s["stmts"] if x["k"] == "rev" and x["id"] == tgt]
+                        if not rs:
+                            ok = False
+                        else:
+                            ci = next(x["cred"] for x in s["stmts"] if x["k"] == "sig" and x["id"] == rs[0]["ref"])
+                            others = [c for j, c in enumerate(s["creds"]) if j != ci and c["issuer"] == s["creds"][ci]["issuer"]
+                                      and c["claims"][0] != s["creds"][ci]["claims"][0]]
+                            if not others:
+                                ok = False
                     if dev["k"] in ("eq_independent_nonces", "eq_copy_response", "eq_unequal_shared_nonce"):
                         if not any(st["k"] == "eq" for st in s["stmts"]):
                             ok = False
